@@ -1,6 +1,23 @@
 """C04 — RSA keys whose primes are close in a documented sense are always factored."""
 from pv import families
+from pv import shim
 from pv import tlc
+
+
+def fermat_small_records(quick):
+  shim.install()
+  from paranoid_crypto.lib import rsa_util
+  recs = []
+  for n in range(3, 3000 if quick else 20000):
+    for ms in (1, 2, 5, 100, 100000):
+      rec = {'sid': 'fermat-small-%d-%d' % (n, ms), 'ev': 'fermat', 'args': {'n': n, 'max_steps': ms}, 'obs': {}, 'raised': 'none'}
+      try:
+        res = rsa_util.FermatFactor(n, ms)
+        rec['obs'] = {'p': int(res[0]), 'q': int(res[1])} if res else {'p': 0, 'q': 0}
+      except Exception as e:  # pylint: disable=broad-except
+        rec['raised'] = type(e).__name__
+      recs.append(rec)
+  return recs
 
 
 def run(ctx):
@@ -10,7 +27,28 @@ def run(ctx):
              'catalogue instances with seeds derived from the cell, not from VERIF_SEED')
   r = tlc.expect_holds('MC_Checks', 'MC_Checks.cfg', timeout=3600)
   ctx.note_mc(r, 'Checks/MC_Checks (must => positive entry, evidence only when weak)')
-  families.run_family_check(ctx, 'C04', families.C04_FAMILIES, 1 if ctx.quick else 6)
+  # the Fermat loop itself: transcription model-checked against the definition and the criterion, then the real function on every small n
+  for ms in (1, 3, 40):
+    r = tlc.expect_holds('Fermat', 'MC_Fermat_%d.cfg' % ms, require_actions=('Start', 'Loop'))
+    ctx.note_mc(r, 'Fermat/MC_Fermat_%d: b2 = a^2 - n, sound, first square = definition, semiprime factored iff (p+q)/2 - ceil(sqrt n) < %d; '
+                   'every n <= 2500' % (ms, ms))
+  recs = fermat_small_records(ctx.quick)
+  if ctx.only_sid:
+    recs = [x for x in recs if x['sid'] == ctx.only_sid]
+  if recs:
+    c, fails, trs = tlc.validate_trace_parallel('FermatTrace', 'FermatTrace.cfg', recs, 'C04fermat', jobs=6)
+    ctx.note_mc(trs[0], 'FermatTrace (first of %d chunks): rsa_util.FermatFactor on every n below the bound x five step bounds' % len(trs))
+    extra_validated, extra_replayed = c, len(recs)
+    by = {x['sid']: x for x in recs}
+    ctx.trace_failures(fails, by, lambda rec, f: {'family': 'fermat-small', 'args': rec['args'], 'obs': rec['obs'], 'raised': rec['raised']})
+  else:
+    extra_validated = extra_replayed = 0
+  if not ctx.only_sid or not ctx.only_sid.startswith('fermat-small'):
+    families.run_family_check(ctx, 'C04', families.C04_FAMILIES, 1 if ctx.quick else 6)
+  ctx.validated += extra_validated
+  ctx.replayed += extra_replayed
+  if recs:
+    ctx.distinct.update(x['sid'] for x in recs)
 
 
 def selftest(ctx):
